@@ -41,6 +41,54 @@ SPECIAL = ["Language", "LanguageAuto", "DecimalSeparator", "DecimalSeparators", 
 GETTERS = [("get_spoken_text",), ("get_overview_text",), ("get_braille", ""), ("get_braille", "no-such-id"), ("get_navigation_braille",),
            ("get_navigation_mathml",), ("get_navigation_mathml_id",), ("get_braille_position",), ("get_version",)]
 
+# ---- documented non-interference: which outputs an ACCEPTED change of one preference must leave byte-identical (everything else equal).
+# Sources: interface.rs::set_preference ("TTS -- SSML, SAPI5, None; Pitch; Rate -- words per minute, should match the current speech rate;
+# Volume; Voice; Gender": parameters of the speech ENGINE, they act on the engine markup only), prefs.yaml ("MathRate: change from text speech
+# rate (%)"; the groups Speech / Navigation / Braille say what a preference is for).  No golden outputs: the relation compares the same
+# expression in the same session before and after the one call.
+ENGINE_PARAMETERS = ("Pitch", "Rate", "Volume", "Voice", "Gender", "MathRate")
+SPEECH_API = ("TTS", "Bookmark", "CapitalLetters_UseWord", "CapitalLetters_Pitch", "CapitalLetters_Beep")
+NONINTERFERENCE = [
+    # (who, condition, outputs that must not change)
+    ("engine parameters " + "/".join(ENGINE_PARAMETERS), "always", ("canonical MathML", "braille", "navigation position")),
+    ("engine parameters " + "/".join(ENGINE_PARAMETERS), "TTS is None/none before and after (plain text: no markup to act on)",
+     ("speech", "overview", "navigation speech")),
+    ("speech-engine API preferences " + "/".join(SPEECH_API), "always", ("canonical MathML", "braille", "navigation position")),
+    ("Speech group of prefs.yaml except Language", "always", ("braille",)),
+    ("Braille group of prefs.yaml, UEB_START_MODE", "always", ("canonical MathML", "speech", "overview", "navigation speech", "navigation position")),
+    ("Navigation group of prefs.yaml", "always", ("canonical MathML", "speech", "overview", "braille")),
+]
+
+
+def tts_is_none(p):
+    t = p.get("TTS", ("err", ""))
+    return t[0] == "ok" and t[1].lower() == "none"
+
+
+def protected_outputs(n, ctx, p, p2):
+    """outputs that an accepted set_preference(n, ...) must leave unchanged, with the table row that says so"""
+    out = {}
+    role = ctx.role.get(n, "other")
+    if n in ENGINE_PARAMETERS:
+        for x in NONINTERFERENCE[0][2]:
+            out.setdefault(x, "engine parameter")
+        if tts_is_none(p) and tts_is_none(p2):
+            for x in NONINTERFERENCE[1][2]:
+                out.setdefault(x, "engine parameter under TTS=None")
+    if n in SPEECH_API:
+        for x in NONINTERFERENCE[2][2]:
+            out.setdefault(x, "speech-engine API preference")
+    if role == "speech":
+        out.setdefault("braille", "speech-only preference")
+    if role == "braille":
+        for x in NONINTERFERENCE[4][2]:
+            out.setdefault(x, "braille-only preference")
+    if role == "navigation":
+        for x in NONINTERFERENCE[5][2]:
+            out.setdefault(x, "navigation preference")
+    return out
+
+
 NBSP, NNBSP = "\u00a0", "\u202f"
 # decimal conventions that are facts about the world (not copied from MathCAT's table); anything else may go either way
 CERTAIN_PERIOD = {"en", "en-us", "en-gb", "zh", "zh-tw", "zh-cn", "ja", "ko", "he", "hi", "th", "es-mx"}
@@ -48,12 +96,20 @@ CERTAIN_COMMA = {"de", "de-de", "fr", "fr-fr", "sv", "sv-se", "fi", "fi-fi", "es
                  "ru", "pl", "id", "vi", "tr", "cs"}
 
 PROBES = [
+    "<math><mfrac><mrow><mi>x</mi><mo>+</mo><mn>1</mn></mrow><mn>2</mn></mfrac><mo>=</mo><msqrt><mi>y</mi></msqrt></math>",
     "<math><mfrac><mrow><mn>3.14</mn><mo>+</mo><mi>x</mi></mrow><mn>2</mn></mfrac></math>",
     "<math><mrow><mn>1,234.5</mn><mo>=</mo><msup><mi>y</mi><mn>2</mn></msup><mo>-</mo><mi>sin</mi><mo>&#x2061;</mo><mi>A</mi></mrow></math>",
     "<math><mrow><mo>(</mo><mtable><mtr><mtd><mn>1</mn></mtd><mtd><mi>b</mi></mtd></mtr><mtr><mtd><mi>c</mi></mtd><mtd><mn>4</mn></mtd></mtr></mtable><mo>)</mo></mrow></math>",
     "<math><mrow><msub><mi mathvariant='normal'>H</mi><mn>2</mn></msub><mi mathvariant='normal'>O</mi><mo>+</mo><msqrt><mi mathvariant='fraktur'>B</mi></msqrt></mrow></math>",
     "<math><mrow><mo>|</mo><mi>x</mi><mo>|</mo><mo>&#x2264;</mo><mn>7</mn><mo>!</mo></mrow></math>",
 ]
+PAUSE_RICH = [
+    "<math><mrow><mfrac><mn>1</mn><mrow><mi>a</mi><mo>-</mo><mi>b</mi></mrow></mfrac><mo>+</mo><mroot><mrow><mi>x</mi><mo>+</mo><mn>1</mn></mrow><mn>3</mn></mroot>"
+    "<mo>+</mo><msqrt><mfrac><mi>c</mi><mn>2</mn></mfrac></msqrt><mo>=</mo><msup><mi>e</mi><mrow><mi>k</mi><mo>+</mo><mn>1</mn></mrow></msup></mrow></math>",
+    "<math><mrow><mi>f</mi><mo>&#x2061;</mo><mrow><mo>(</mo><mi>x</mi><mo>)</mo></mrow><mo>=</mo><mrow><mo>{</mo><mtable><mtr><mtd><mfrac><mi>x</mi><mn>2</mn></mfrac></mtd>"
+    "<mtd><mtext>if</mtext></mtd><mtd><mi>x</mi><mo>&gt;</mo><mn>0</mn></mtd></mtr><mtr><mtd><msqrt><mi>x</mi></msqrt></mtd><mtd><mtext>otherwise</mtext></mtd><mtd/></mtr></mtable></mrow></mrow></math>",
+]
+PROBES += PAUSE_RICH
 BAD_MATHML = "<math><mi>x</mi>"
 EMPTY_LANG, EMPTY_CODE = "qq", "EmptyCode"
 DERIVED = ("DecimalSeparators", "BlockSeparators")
@@ -206,6 +262,8 @@ def build_ctx():
             role[n] = "braille"
         elif (g == "Speech" and n != "Language") or n in API_SPEECH_ONLY:
             role[n] = "speech"
+        elif g == "Navigation":
+            role[n] = "navigation"
         else:
             role[n] = "other"
     lang_dir = os.path.join(core.RULES, "Languages")
@@ -415,13 +473,18 @@ def compile_history(history, ctx, rules=None):
 
 
 def snap_o(xml):
-    return [("set_mathml", xml), ("get_spoken_text",), ("get_overview_text",), ("get_braille", "")]
+    """the outputs of the current expression, recomputed from scratch (set_mathml also puts the navigation position back to the root)"""
+    return [("set_mathml", xml), ("get_spoken_text",), ("get_overview_text",), ("get_braille", ""),
+            ("do_navigate_command", "ZoomIn"), ("get_navigation_mathml_id",)]
+
+
+NOUT = 6
 
 
 def norm_res(r):
     if r["r"] == "ok":
         v = r.get("v")
-        return ("ok", ID_RX.sub(r"ID-\1", v) if isinstance(v, str) else repr(v))
+        return ("ok", ID_RX.sub(r"ID-\1", v if isinstance(v, str) else repr(v)))
     if r["r"] == "err":
         return ("err", ID_RX.sub(r"ID-\1", r.get("e", "")))
     return ("panic", (r.get("p") or {}).get("fn", "").split(" <- ")[0])
@@ -486,8 +549,8 @@ class Runner:
                 pos += n
             ps.append({n: norm_res(r) for n, r in zip(names, res[pos:pos + np_])})
             pos += np_
-            os_.append(tuple(norm_res(r) for r in res[pos:pos + 4]))
-            pos += 4
+            os_.append(tuple(norm_res(r) for r in res[pos:pos + NOUT]))
+            pos += NOUT
         return results, ps, os_
 
     def close_driver(self):
@@ -503,7 +566,7 @@ class Runner:
 # --------------------------------------------------------------------------------------------
 # the oracle
 # --------------------------------------------------------------------------------------------
-OUT_NAMES = ("canonical MathML", "speech", "overview", "braille")
+OUT_NAMES = ("canonical MathML", "speech", "overview", "braille", "navigation speech", "navigation position")
 
 
 def diff_p(p, p2, ignore=()):
@@ -511,7 +574,7 @@ def diff_p(p, p2, ignore=()):
 
 
 def diff_o(o, o2):
-    return [OUT_NAMES[i] for i in range(4) if o[i] != o2[i]]
+    return [OUT_NAMES[i] for i in range(NOUT) if o[i] != o2[i]]
 
 
 def panic_class(r):
@@ -555,7 +618,7 @@ def judge(history, run, ctx, st=None):
             for k, x in enumerate(o2):
                 if x[0] == "panic":
                     st.count("panic_in_snapshot_call(C08)")
-                    key = "%s in %s" % (x[1].replace("libmathcat::", ""), "set_mathml" if k == 0 else "get_" + OUT_NAMES[k])
+                    key = "%s in %s" % (x[1].replace("libmathcat::", ""), "set_mathml" if k == 0 else "get_" + OUT_NAMES[k].replace(" ", "_"))
                     if key not in st.sets.get("panics_outside_preference_calls(C08)", ()):
                         st.notes.append("C08: %s with non-default preferences %s" % (key, {m: p2[m][1][:24] for m in p2 if p2[m] != ps[0][m]}))
                     st.add("panics_outside_preference_calls(C08)", key)
@@ -685,18 +748,21 @@ def judge(history, run, ctx, st=None):
                     lang_now, lang_auto, dec_now, new, sorted(allowed)), True)
                 break
         # independence, limited to what is documented
-        role = ctx.role.get(n, "other")
-        if role == "braille" and [x for x in changed_o if x != "braille"]:
-            add("independence", "braille-only preference changed " + ",".join(x for x in changed_o if x != "braille"), i,
-                "braille preference %s=%r changed %s: %r -> %r" % (n, v[:60], changed_o, [x[1][:200] for x in o[:3]], [x[1][:200] for x in o2[:3]]), True,
-                outputs=[x for x in changed_o if x != "braille"])
+        protected = protected_outputs(n, ctx, p, p2)
+        hit = [x for x in changed_o if x in protected]
+        if hit:
+            why = protected[hit[0]]
+            k = OUT_NAMES.index(hit[0])
+            add("independence", "%s changed %s" % (why, ",".join(hit)), i,
+                "%s %s=%r (was %r) changed %s: %r -> %r" % (why, n, v[:60], p[n][1][:40], hit, o[k][1][:300], o2[k][1][:300]), True, outputs=hit)
             break
-        if role == "speech" and "braille" in changed_o:
-            add("independence", "speech-only preference changed braille", i,
-                "speech preference %s=%r changed braille %r -> %r" % (n, v[:60], o[3], o2[3]), True, outputs=["braille"])
-            break
-        if st and role != "other":
+        if st and protected:
             st.count("independence_judgements")
+            st.count("noninterference_outputs_compared", len(protected))
+            if "speech" in protected and n in ENGINE_PARAMETERS and p[n] != p2[n]:
+                st.count("engine_parameter_changed_under_TTS_None")
+                if o[1][0] == "ok" and ("," in o[1][1] or ";" in o[1][1]):
+                    st.count("engine_parameter_changed_under_TTS_None_on_speech_with_pauses")
     return findings
 
 
@@ -834,6 +900,7 @@ UNICODE_VALUES = ["√úberschall ‚òÉ", "ùîòùî´ùî¶", "ŸÖÿ±ÿ≠ÿ®ÿß", "e\u0301", "Ô
 HOSTILE = ["true", "False", "TRUE", "tRuE", "1.5", "0", "abc", "", "maybe", " true", "true ", "yes", "1", "Auto", "en", "None", "null", "~",
            LONG, "-1", "100", "1e2", "NaN", "inf"] + UNICODE_VALUES
 NUM_OK = ["0", "80", "1.50", "1e2", "-3.25", "+7", ".5", "5.", "1E-2", "00012.5", "123456789.125", "0.1", "2.675", "1e400", "-0", "77", "100.0"]
+ENGINE_VALUES = ["20", "45", "60", "90", "250", "360", "600", "1000", "1200", "5000", "0.5", "-50", "99", "181"]
 NUM_BAD = ["abc", "", "1,5", "1.2.3", "12abc", "0x10", "--1", "1 2", " 5", "5 ", "Ôºï", "Ÿ°Ÿ¢", "1e", "e5", "‚àû", "1_000", ".", "+", "true", "False", "ten", LONG]
 NUM_EDGE = ["inf", "-inf", "NaN", "Infinity", "nan"]
 BOOL_OK = ["true", "false", "True", "False", "TRUE", "FALSE", "tRuE", "fALSE"]
@@ -856,6 +923,8 @@ def gen_value(rng, ctx, name, kind):
         return rng.choice(BOOL_OK) if rng.random() < 0.55 else rng.choice(BOOL_BAD)
     if kind == "float":
         x = rng.random()
+        if x < 0.22:
+            return rng.choice(ENGINE_VALUES)            # far below / far above the defaults (Rate 180, Volume 100, MathRate 100, Pitch 0)
         if x < 0.5:
             return rng.choice(NUM_OK) if rng.random() < 0.7 else "%d.%02d" % (rng.randint(0, 400), rng.randint(0, 99))
         return rng.choice(NUM_BAD) if x < 0.9 else rng.choice(NUM_EDGE)
@@ -1110,8 +1179,10 @@ def run(tier, seed):
     for n, k in ctx.kinds.items():
         kinds[k] = kinds.get(k, 0) + 1
     extra = {"known_names": len(ctx.kinds), "names_by_kind": kinds, "unknown_names_used": ctx.unknown,
+             "noninterference_table": [{"preferences": a, "condition": b, "outputs_must_not_change": list(c)} for a, b, c in NONINTERFERENCE],
              "braille_only_names": sorted(n for n, r in ctx.role.items() if r == "braille"),
-             "speech_only_names": sorted(n for n, r in ctx.role.items() if r == "speech")}
+             "speech_only_names": sorted(n for n, r in ctx.role.items() if r == "speech"),
+             "navigation_names": sorted(n for n, r in ctx.role.items() if r == "navigation")}
     extra.update(ctx_report)
     names_set = stats.sets.get("names_set", set())
     extra["known_names_never_set"] = sorted(set(ctx.kinds) - set(names_set))
@@ -1120,10 +1191,11 @@ def run(tier, seed):
             or stats.counters.get("persistence_judgements", 0) < 200 or stats.counters.get("separator_derivations_judged", 0) < 20 \
             or stats.counters.get("api_set_preferences_contradicted_by_rewritten_file", 0) < 10 \
             or stats.counters.get("preferences_seen_following_the_rewritten_file", 0) < 10 \
-            or stats.counters.get("accepted_LanguageAuto_sets", 0) < 5:
+            or stats.counters.get("accepted_LanguageAuto_sets", 0) < 5 \
+            or stats.counters.get("engine_parameter_changed_under_TTS_None_on_speech_with_pauses", 0) < 20:
         stats.notes.append("too few observations of one of: accepted sets, rejections, persistence judgements, separator derivations, "
                            "API-set preferences contradicted by a rewritten user prefs.yaml, preferences following the rewritten file (= it was "
-                           "really read again), accepted sets of LanguageAuto")
+                           "really read again), accepted sets of LanguageAuto, engine parameters changed under TTS=None on speech that has pauses")
         need = 10 ** 9
     return core.conclude(
         PROP, tier, seed, "exploration", stats, extra,
